@@ -25,8 +25,20 @@
 //     #D n<k> <field> <old> <new>   a field of a previously observed object reads differently (the python oracle decides)
 //     #T t<j> n<k>        name correspondence;   #M <op-index> mutator target / added member, in observer names
 //     #A <round> n<k>=<digest> ...   all digests (sparse checkpoints), #H <round> <objects> <xor of digests>
+//     @xfer=1             (value ops, obs) every linkage / calling convention / transfer handed out so far still reads as it did, every
+//                         transfer still refers to the SAME linkage and convention objects, and these (and the transfer of every
+//                         type built with an explicit transfer) are objects the Lexicon handed out or process-wide constants
+//     @lookup=1           (member additions, `lookup`, obs) every `scope[name]` / `overload[type]` answered so far is still answered
+//                         with the same Overload node and the same declaration (an answer `nothing` may later become a node)
+// LINKAGES, CALLING CONVENTIONS AND TRANSFERS are not Nodes: they are named t<j> by address like nodes, never shown to the
+// universal observer (which prints them by value inside the types that carry them), and re-read by the probe itself.
+// WORDS reach the library the way a scanner hands them over: as a `const char8_t*` into ONE token buffer that is reused, as a view
+// into the middle of a heap buffer, or as a std::u8string; the buffer is overwritten / freed at the END of the op (after the first
+// observation of what the op returned), and a piece of the stack below main() is overwritten after every op, so that nothing
+// handed over by value / by pointer survives in the caller's storage.
 // A sanitizer abort / crash is a result: the check reports it with the op prefix as replay.
 #include <algorithm>
+#include <cstring>
 #include <cstdio>
 #include <deque>
 #include <functional>
@@ -58,6 +70,9 @@ namespace {
       impl::Translation_unit* unit = nullptr;
       int wh = -1;
       bool none = true;
+      const ipr::Linkage* link = nullptr;             // values that are not Nodes
+      const ipr::Calling_convention* conv = nullptr;
+      const ipr::Transfer* xfer = nullptr;
    };
 
    // a membership recorded when the client added a member: re-fetched at every round
@@ -90,6 +105,23 @@ namespace {
       const ipr::Type* burst_chain = nullptr;
       std::uint64_t burst_words = 0;
       std::vector<std::pair<const ipr::Identifier*, std::u8string>> burst_ids;   // every identifier of the pool bursts, with its spelling
+      // values that are not Nodes, re-read in every round
+      struct Link_rec { const ipr::Linkage* p; std::u8string w; };
+      struct Conv_rec { const ipr::Calling_convention* p; std::u8string w; };
+      struct Xfer_rec { const ipr::Transfer* p; const ipr::Linkage* l; const ipr::Calling_convention* c; };
+      struct Xtype_rec { const ipr::Type* t; const ipr::Transfer* x; };
+      std::vector<Link_rec> links;
+      std::vector<Conv_rec> convs;
+      std::vector<Xfer_rec> xfers;
+      std::vector<Xtype_rec> xtypes;
+      std::set<const void*> known_links, known_convs, known_xfers;
+      // look-ups answered so far
+      struct Lookup_rec { const ipr::Scope* sc; const ipr::Name* n; const ipr::Type* t; const void* ovl; const void* decl; std::string decl_n; };
+      std::vector<Lookup_rec> lookups;
+      std::map<std::tuple<const void*, const void*, const void*>, std::size_t> lookup_ix;
+      // storage of the words handed to the library by the current op: overwritten / freed when the op is over
+      char8_t token[256];
+      std::vector<std::function<void()>> after_op;
 
       impl::Region* root()
       {
@@ -159,6 +191,9 @@ namespace {
          if (t.size() < 2 or t[0] != '#') throw Bad{"operand is not a number: " + t};
          return std::stoull(t.substr(1));
       }
+      const ipr::Linkage& Lk() { Handle h = handle(); if (h.link == nullptr) throw Bad{"operand is not a linkage"}; return *h.link; }
+      const ipr::Calling_convention& Cc() { Handle h = handle(); if (h.conv == nullptr) throw Bad{"operand is not a calling convention"}; return *h.conv; }
+      const ipr::Transfer& X() { Handle h = handle(); if (h.xfer == nullptr) throw Bad{"operand is not a transfer"}; return *h.xfer; }
       std::u8string word()
       {
          const std::string& t = tok();
@@ -183,14 +218,51 @@ namespace {
       std::string sorts;                              // operand sorts, for the generator (vlib/c05.py)
       std::string result;                             // result sort
       std::function<const ipr::Node*(Call&)> call;
+      std::function<Handle(Call&)> vcall;             // factories of values that are not Nodes
    };
    std::map<std::string, Factory> factories;
    std::vector<std::string> factory_order;
 
    void reg(const std::string& name, const std::string& sorts, const std::string& result, std::function<const ipr::Node*(Call&)> f)
    {
-      factories[name] = Factory{sorts, result, std::move(f)};
+      factories[name] = Factory{sorts, result, std::move(f), nullptr};
       factory_order.push_back(name);
+   }
+
+   void vreg(const std::string& name, const std::string& sorts, const std::string& result, std::function<Handle(Call&)> f)
+   {
+      factories[name] = Factory{sorts, result, nullptr, std::move(f)};
+      factory_order.push_back(name);
+   }
+
+   // ------------------------------------------------------------------------------------------- words
+   // f is called with the word in the form chosen for this op: `const char8_t*` into the reused token buffer (words without NUL that
+   // fit), a view into the middle of a heap buffer, or a std::u8string.  The storage is overwritten / freed when the op is over.
+   template<class F>
+   auto with_word(const std::u8string& w, F f)
+   {
+      const std::size_t mode = cx->opno % 3;
+      if (mode == 0 and w.size() + 1 < sizeof cx->token and w.find(char8_t{0}) == std::u8string::npos) {
+         std::memcpy(cx->token, w.data(), w.size() * sizeof(char8_t));
+         cx->token[w.size()] = 0;
+         cx->after_op.push_back([] { std::memset(cx->token, '#', sizeof cx->token - 1); cx->token[sizeof cx->token - 1] = 0; });
+         const char8_t* p = cx->token;
+         return f(p);
+      }
+      if (mode != 2) {
+         auto buf = std::make_shared<std::vector<char8_t>>(w.size() + 16, u8'~');
+         std::copy(w.begin(), w.end(), buf->begin() + 8);
+         cx->after_op.push_back([buf] { std::fill(buf->begin(), buf->end(), u8'#'); });   // then freed with the closure
+         return f(ipr::util::word_view(buf->data() + 8, w.size()));
+      }
+      return f(std::u8string(w));
+   }
+
+   // Overwrites the dead frames below the caller (by-value parameters, temporaries of the op that just ended).
+   __attribute__((noinline)) void scrub_stack()
+   {
+      volatile unsigned char pad[192 * 1024];
+      for (std::size_t i = 0; i < sizeof pad; i += 1) pad[i] = 0xA5;
    }
 
 #define L (cx->lex)
@@ -218,10 +290,10 @@ namespace {
    void register_factories()
    {
       // ---- unified (find-or-insert) in the code
-      FAC("get_string", "w", "String", auto w = c.word(); return &L.get_string(w);)
-      FAC("get_identifier", "w", "Identifier", auto w = c.word(); return &L.get_identifier(w);)
+      FAC("get_string", "w", "String", auto w = c.word(); return with_word(w, [](auto x) -> const ipr::Node* { return &L.get_string(x); });)
+      FAC("get_identifier", "w", "Identifier", auto w = c.word(); return with_word(w, [](auto x) -> const ipr::Node* { return &L.get_identifier(x); });)
       FAC("get_identifier_s", "S", "Identifier", auto& s = c.S(); return &L.get_identifier(s);)
-      FAC("get_operator", "w", "Name", auto w = c.word(); return &L.get_operator(w);)
+      FAC("get_operator", "w", "Name", auto w = c.word(); return with_word(w, [](auto x) -> const ipr::Node* { return &L.get_operator(x); });)
       FAC("get_suffix", "I", "Name", auto& i = c.I(); return &L.get_suffix(i);)
       FAC("get_conversion", "T", "Name", auto& t = c.T(); return &L.get_conversion(t);)
       FAC("get_ctor_name", "T", "Name", auto& t = c.T(); return &L.get_ctor_name(t);)
@@ -241,11 +313,39 @@ namespace {
       FAC("get_symbol", "N T", "Expr", auto& n = c.N(); auto& t = c.T(); return &L.get_symbol(n, t);)
       FAC("get_label", "I", "Expr", auto& i = c.I(); return &L.get_label(i);)
       FAC("get_this", "T", "Expr", auto& t = c.T(); return &L.get_this(t);)
-      FAC("make_literal", "T w", "Expr", auto& t = c.T(); auto w = c.word(); return L.make_literal(t, w);)
+      FAC("make_literal", "T w", "Expr", auto& t = c.T(); auto w = c.word();
+          return with_word(w, [&t](auto x) -> const ipr::Node* { return L.make_literal(t, x); });)
       FAC("make_literal_s", "T S", "Expr", auto& t = c.T(); auto& s = c.S(); return L.make_literal(t, s);)
-      FAC("get_literal", "T w", "Expr", auto& t = c.T(); auto w = c.word(); return &L.get_literal(t, w);)
+      FAC("get_literal", "T w", "Expr", auto& t = c.T(); auto w = c.word();
+          return with_word(w, [&t](auto x) -> const ipr::Node* { return &L.get_literal(t, x); });)
       FAC("make_template_id", "E Xlist", "Name", auto& e = c.E(); auto& x = c.as<ipr::Expr_list>(); return L.make_template_id(e, x);)
       FAC("get_template_id", "E Xlist", "Name", auto& e = c.E(); auto& x = c.as<ipr::Expr_list>(); return &L.get_template_id(e, x);)
+      // ---- linkages, calling conventions, transfers (values, not Nodes) and the types that carry a transfer
+      vreg("get_linkage", "lw", "Linkage", [](Call& c) {
+         auto w = c.word();
+         Handle h; h.none = false;
+         h.link = with_word(w, [](auto x) { return &L.get_linkage(x); });
+         if (cx->known_links.insert(h.link).second) cx->links.push_back({h.link, w});
+         return h; });
+      vreg("get_calling_convention", "cw", "Convention", [](Call& c) {
+         auto w = c.word();
+         Handle h; h.none = false;
+         h.conv = with_word(w, [](auto x) { return &L.get_calling_convention(x); });
+         if (cx->known_convs.insert(h.conv).second) cx->convs.push_back({h.conv, w});
+         return h; });
+      vreg("get_transfer_from_linkage", "Linkage", "Transfer", [](Call& c) {
+         auto& l = c.Lk();
+         Handle h; h.none = false; h.xfer = &L.get_transfer_from_linkage(l); return h; });
+      vreg("get_transfer_from_convention", "Convention", "Transfer", [](Call& c) {
+         auto& k = c.Cc();
+         Handle h; h.none = false; h.xfer = &L.get_transfer_from_convention(k); return h; });
+      vreg("get_transfer", "Linkage Convention", "Transfer", [](Call& c) {
+         auto& l = c.Lk(); auto& k = c.Cc();
+         Handle h; h.none = false; h.xfer = &L.get_transfer(l, k); return h; });
+      FAC("get_function_x", "P T Transfer", "Function", auto& p = c.as<ipr::Product>(); auto& t = c.T(); auto& x = c.X();
+          auto& f = L.get_function(p, t, x); cx->xtypes.push_back({&f, nullptr}); return &f;)
+      FAC("get_as_type_x", "E Transfer", "Type", auto& e = c.E(); auto& x = c.X();
+          auto& t = L.get_as_type(e, x); cx->xtypes.push_back({&t, nullptr}); return &t;)
       // ---- named get_ but generative in the code
       FAC("get_decltype", "E", "Type", auto& e = c.E(); return &L.get_decltype(e);)
       FAC("get_auto", "", "Type", return &L.get_auto();)
@@ -413,6 +513,96 @@ namespace {
       out_impl.push_back(s);
    }
 
+   // ------------------------------------------------------------------------------------------- values that are not Nodes
+   std::string hexw(ipr::util::word_view w) { return verif::hex(w); }
+
+   void known_constants()
+   {
+      if (not cx->known_xfers.empty()) return;
+      cx->known_xfers.insert(&impl::cxx_transfer());
+      cx->known_links.insert(&L.cxx_linkage());
+      cx->known_links.insert(&L.c_linkage());
+      cx->known_links.insert(&impl::cxx_transfer().linkage());
+      cx->known_convs.insert(&impl::cxx_transfer().convention());
+   }
+
+   // "" when every linkage / convention / transfer handed out so far is what it was, else what is wrong with the first that is not.
+   // An operand that is not an object the Lexicon handed out is reported WITHOUT being read (it may lie in a dead stack frame).
+   std::string check_values()
+   {
+      known_constants();
+      for (auto& r : cx->links)
+         if (r.p->language().what().characters() != std::u8string_view(r.w))
+            return "a linkage made from `" + hexw(r.w) + "` now spells `" + hexw(r.p->language().what().characters()) + "`";
+      for (auto& r : cx->convs)
+         if (r.p->name().what().characters() != std::u8string_view(r.w))
+            return "a calling convention made from `" + hexw(r.w) + "` now spells `" + hexw(r.p->name().what().characters()) + "`";
+      for (std::size_t i = 0; i < cx->xfers.size(); ++i) {
+         auto& r = cx->xfers[i];
+         const ipr::Linkage* l = &r.p->linkage();
+         const ipr::Calling_convention* k = &r.p->convention();
+         const std::string which = "transfer #" + std::to_string(i);
+         if (cx->known_links.count(l) == 0)
+            return which + ": linkage() refers to an object that is neither a linkage the Lexicon handed out nor a process-wide constant (a dangling reference)";
+         if (cx->known_convs.count(k) == 0)
+            return which + ": convention() refers to an object that is neither a calling convention the Lexicon handed out nor a process-wide constant (a dangling reference)";
+         if (l != r.l) return which + ": linkage() is no longer the object it was";
+         if (k != r.c) return which + ": convention() is no longer the object it was";
+      }
+      for (auto& r : cx->xtypes) {
+         const ipr::Transfer* x = &r.t->transfer();
+         if (cx->known_xfers.count(x) == 0)
+            return "a type built with an explicit transfer: transfer() refers to an object that is neither a transfer the Lexicon handed out nor the natural one";
+         if (r.x == nullptr) r.x = x;
+         if (x != r.x) return "a type built with an explicit transfer: transfer() is no longer the object it was";
+      }
+      return "";
+   }
+
+   void emit_values(std::vector<std::string>* out)
+   {
+      const std::string bad = check_values();
+      const std::string a = std::string("@xfer=") + (bad.empty() ? "1" : "0");
+      if (out) { out->push_back(a); if (not bad.empty()) out->push_back("#D xfer: " + bad); }
+      else { std::cout << a << '\n'; if (not bad.empty()) std::cout << "#D xfer: " << bad << '\n'; }
+   }
+
+   // ------------------------------------------------------------------------------------------- look-ups
+   std::pair<const void*, const void*> do_lookup(const ipr::Scope& sc, const ipr::Name& n, const ipr::Type& t, const ipr::Decl** found = nullptr)
+   {
+      auto ov = sc[n];
+      if (not ov) return { nullptr, nullptr };
+      auto d = ov.get()[t];
+      if (found and d) *found = &d.get();
+      return { dynamic_cast<const void*>(&ov.get()), d ? dynamic_cast<const void*>(&d.get()) : nullptr };
+   }
+
+   std::string lookup_bad;                            // first look-up that no longer answers what it answered
+
+   // Asks `sc[n][t]`, compares with what was answered before (an Overload node / a declaration once answered must stay), remembers.
+   const ipr::Decl* memo_lookup(const ipr::Scope& sc, const ipr::Name& n, const ipr::Type& t)
+   {
+      const ipr::Decl* found = nullptr;
+      auto now = do_lookup(sc, n, t, &found);
+      auto key = std::make_tuple(dynamic_cast<const void*>(&sc), dynamic_cast<const void*>(&n), dynamic_cast<const void*>(&t));
+      auto it = cx->lookup_ix.find(key);
+      if (it == cx->lookup_ix.end()) {
+         cx->lookup_ix.emplace(key, cx->lookups.size());
+         cx->lookups.push_back({&sc, &n, &t, now.first, now.second, found ? cx->ob.ref(*found) : std::string()});
+         return found;
+      }
+      auto& r = cx->lookups[it->second];
+      if (lookup_bad.empty()) {
+         if (r.ovl != nullptr and now.first != r.ovl)
+            lookup_bad = "scope " + cx->ob.ref(sc) + " looked up by name " + cx->ob.ref(n) + " answered an Overload node before and " + (now.first ? "ANOTHER one" : "nothing") + " now";
+         else if (r.decl != nullptr and now.second != r.decl)
+            lookup_bad = "scope " + cx->ob.ref(sc) + " [name " + cx->ob.ref(n) + "][type " + cx->ob.ref(t) + "] answered the declaration " + r.decl_n
+               + " before and " + (found ? "the declaration " + cx->ob.ref(*found) : std::string("nothing")) + " now";
+      }
+      r.ovl = now.first; r.decl = now.second; r.decl_n = found ? cx->ob.ref(*found) : std::string();
+      return found;
+   }
+
    // ------------------------------------------------------------------------------------------- mutators
    impl::Scope& scope_of(const ipr::Node& n)
    {
@@ -538,7 +728,11 @@ namespace {
          }
          out_impl.push_back("#B " + std::to_string(cx->opno) + " " + ob.ref(static_cast<const ipr::Enum&>(*cx->burst_enum)));
          auto& name = L.get_identifier(word("zzenum"));
-         for (std::size_t i = 0; i < n; ++i) cx->burst_enum->add_member(name);
+         auto& esc = static_cast<const ipr::Enum&>(*cx->burst_enum).scope();
+         for (std::size_t i = 0; i < n; ++i) {          // all of one name: what the name answers after the first stays the answer
+            cx->burst_enum->add_member(name);
+            if (i == 0 or i + 1 == n) memo_lookup(esc, name, static_cast<const ipr::Enum&>(*cx->burst_enum));
+         }
       }
       else if (kind == "scope") {                     // ONE general scope: decl vector, overload tree, decl farms
          if (cx->burst_region == nullptr) {
@@ -555,7 +749,11 @@ namespace {
          }
          out_impl.push_back("#B " + std::to_string(cx->opno) + " " + ob.ref(cx->burst_mapping->parameters()));
          auto& name = L.get_identifier(word("zzparm"));
-         for (std::size_t i = 0; i < n; ++i) cx->burst_mapping->param(name, L.int_type());
+         auto& psc = cx->burst_mapping->parameters().region().bindings();
+         for (std::size_t i = 0; i < n; ++i) {
+            cx->burst_mapping->param(name, L.int_type());
+            if (i == 0 or i + 1 == n) memo_lookup(psc, name, L.int_type());
+         }
       }
       else if (kind == "handlers") {                  // obj_list<Handler> of ONE block
          if (cx->burst_block == nullptr) {
@@ -683,6 +881,13 @@ namespace {
       for (auto& m : cx->memberships) if (m.refetch() != m.member) addr_ok = false;
       std::cout << "@addr=" << (addr_ok ? 1 : 0) << '\n';
       std::cout << "@stable=" << (stable ? 1 : 0) << '\n';
+      emit_values(nullptr);
+      for (std::size_t i = 0; i < cx->lookups.size(); ++i) {      // by index: the memo is updated in place
+         auto r = cx->lookups[i];
+         memo_lookup(*r.sc, *r.n, *r.t);
+      }
+      std::cout << "@lookup=" << (lookup_bad.empty() ? 1 : 0) << '\n';
+      if (not lookup_bad.empty()) std::cout << "#D lookup: " << lookup_bad << '\n';
       // the identifiers of the pool bursts still spell what they were made from (storage growth must not alter earlier words)
       std::size_t burst_bad = 0;
       const ipr::Identifier* first_bad = nullptr;
@@ -721,12 +926,27 @@ namespace {
          const std::string f = c.tok();
          auto it = factories.find(f);
          if (it == factories.end()) throw Bad{"unknown factory " + f};
+         if (it->second.vcall) {
+            Handle h = it->second.vcall(c);
+            const void* a = h.link ? static_cast<const void*>(h.link) : h.conv ? static_cast<const void*>(h.conv) : static_cast<const void*>(h.xfer);
+            if (a == nullptr) throw Bad{"factory returned null"};
+            known_constants();
+            if (h.xfer != nullptr and cx->known_xfers.insert(h.xfer).second)
+               cx->xfers.push_back({h.xfer, &h.xfer->linkage(), &h.xfer->convention()});   // addresses only: nothing is read through them yet
+            cx->results.back() = h;
+            auto tit = cx->tix.find(a);
+            if (tit == cx->tix.end()) tit = cx->tix.emplace(a, static_cast<int>(cx->tix.size())).first;
+            std::cout << "R t" << tit->second << '\n';
+            emit_values(&out_impl);
+            return;
+         }
          const std::size_t known_before = cx->ob.count();
          const ipr::Node* n = it->second.call(c);
          if (n == nullptr) throw Bad{"factory returned null"};
          // freshness by address: neither returned before nor ever reached by the observer
          const bool fresh = cx->tix.find(addr(*n)) == cx->tix.end() and (cx->ob.ref(*n), cx->ob.count() > known_before);
          out_impl.push_back(std::string("@fresh=") + (fresh ? "1" : "0"));
+         if (f == "get_function_x" or f == "get_as_type_x") emit_values(&out_impl);   // before the observer reads through transfer()
          ret(*n);
       }
       else if (op == "k") ret(*constant(c.tok()));
@@ -749,6 +969,7 @@ namespace {
          note_mutation(static_cast<const ipr::Scope&>(s), d);
          out_impl.push_back(std::string("@fresh=") + (fresh ? "1" : "0"));
          ret(*d);
+         memo_lookup(static_cast<const ipr::Scope&>(s), n, t);
       }
       else if (op == "param") {                       // Parameter_list::add_member
          auto& pl = c.impl_as<impl::Parameter_list>();
@@ -761,6 +982,7 @@ namespace {
          note_mutation(static_cast<const ipr::Parameter_list&>(pl), d);
          out_impl.push_back(std::string("@fresh=") + (fresh ? "1" : "0"));
          ret(*d);
+         memo_lookup(static_cast<const ipr::Parameter_list&>(pl).region().bindings(), n, t);
       }
       else if (op == "mparam") {                      // Mapping::param
          auto& m = c.impl_as<impl::Mapping>();
@@ -773,6 +995,7 @@ namespace {
          note_mutation(m.parameters(), d);
          out_impl.push_back(std::string("@fresh=") + (fresh ? "1" : "0"));
          ret(*d);
+         memo_lookup(m.parameters().region().bindings(), n, t);
       }
       else if (op == "enumerator") {
          auto& e = c.impl_as<impl::Enum>();
@@ -784,6 +1007,7 @@ namespace {
          note_mutation(static_cast<const ipr::Enum&>(e), d);
          out_impl.push_back(std::string("@fresh=") + (fresh ? "1" : "0"));
          ret(*d);
+         memo_lookup(static_cast<const ipr::Enum&>(e).scope(), n, static_cast<const ipr::Enum&>(e));
       }
       else if (op == "base") {
          auto& k = c.impl_as<impl::Class>();
@@ -795,6 +1019,8 @@ namespace {
          note_mutation(static_cast<const ipr::Class&>(k), d);
          out_impl.push_back(std::string("@fresh=") + (fresh ? "1" : "0"));
          ret(*d);
+         try { memo_lookup(k.base_subobjects.bindings(), t.name(), t); }
+         catch (const std::logic_error&) { }             // the type has no name yet (a class whose `id` is not set)
       }
       else if (op == "handler") {
          auto& b = c.impl_as<impl::Block>();
@@ -807,6 +1033,7 @@ namespace {
          note_mutation(static_cast<const ipr::Block&>(b), h);
          out_impl.push_back(std::string("@fresh=") + (fresh ? "1" : "0"));
          ret(*h);
+         memo_lookup(static_cast<const ipr::Handler*>(h)->body().region().enclosing().bindings(), n, t);
       }
       else if (op == "push") {
          auto& x = c.impl_as<impl::Expr_list>();
@@ -853,6 +1080,14 @@ namespace {
          cx->whs[i].reset();
          std::cout << "R -\n";
       }
+      else if (op == "lookup") {                      // scope[name][type]
+         auto& sc = c.as<ipr::Scope>();
+         auto& n = c.N();
+         auto& t = c.T();
+         const ipr::Decl* d = memo_lookup(sc, n, t);
+         if (d) ret(*d); else std::cout << "R -\n";
+      }
+      else if (op == "nop") std::cout << "R bad\n";
       else if (op == "burst") { const std::string kind = c.tok(); burst(kind, c.num()); std::cout << "R -\n"; }
       else if (op == "obs") observe_round(false);
       else if (op == "obs_all") observe_round(true);
@@ -897,7 +1132,14 @@ int main(int argc, char** argv)
       catch (const std::logic_error&) { std::cout << "R !L\n"; }
       catch (const std::exception& e) { std::cout << "R !X(" << verif::demangle(typeid(e).name()) << ")\n"; }
       if (w[0] != "obs" and w[0] != "obs_all" and w[0] != "burst") observe_new();
+      if (w[0] != "obs" and w[0] != "obs_all" and not lookup_bad.empty()) {
+         out_impl.push_back("@lookup=0");
+         out_impl.push_back("#D lookup: " + lookup_bad);
+      }
       for (auto& s : out_impl) std::cout << s << '\n';
+      for (auto& f : cx->after_op) f();                  // the words handed over by this op: their storage is overwritten / freed
+      cx->after_op.clear();
+      scrub_stack();
       std::cout << "." << cx->opno << '\n';             // end of the output of this op
       ++cx->opno;
       std::cout.flush();
